@@ -67,6 +67,17 @@ def ordering_truth(ld, body):
         e = hir.peel_refs(hir.strip(e))
         if e.get("k") == "mcall" and e["m"] == "partial_cmp":
             return e
+        if e.get("k") == "call" and not e.get("args"):
+            # `let ord = || a.partial_cmp(&b); .. ord()`
+            f = hir.peel_refs(hir.strip(e["f"]))
+            if f.get("k") == "path" and hir.res_local(f) is not None:
+                d = ld.get(hir.res_local(f))
+                init = hir.strip(d[1]) if d and d[1] is not None else {}
+                if init.get("k") == "closure" and not init.get("params"):
+                    return find_ord(init.get("body") or {})
+            return None
+        if e.get("k") == "block" and not e.get("stmts") and e.get("expr") is not None:
+            return find_ord(e["expr"])
         if e.get("k") == "path" and hir.res_local(e) is not None:
             d = ld.get(hir.res_local(e))
             if d and d[1] is not None and not (d[2] and d[2][0] == "arm"):
